@@ -43,9 +43,31 @@ impl Display for CompoundKind {
     }
 }
 
-#[derive(Debug, Eq, PartialEq, Clone, Default)]
+#[derive(Eq, PartialEq, Clone, Default)]
 pub struct Bind {
     bound_generics: HashMap<Identifier, Arc<XType>>,
+}
+
+// Compilation error messages embed the debug text of types. A HashMap prints in its (per-instance random)
+// iteration order, which made the same error read differently from one compilation to the next; the maps
+// inside types are therefore printed in a fixed order.
+impl Debug for Bind {
+    fn fmt(&self, f: &mut Formatter<'_>) -> std::fmt::Result {
+        let mut entries: Vec<(String, &Arc<XType>)> = self
+            .bound_generics
+            .iter()
+            .map(|(k, v)| (format!("{k:?}"), v))
+            .collect();
+        entries.sort_by(|a, b| a.0.cmp(&b.0));
+        write!(f, "Bind {{ bound_generics: {{")?;
+        for (i, (k, v)) in entries.iter().enumerate() {
+            if i > 0 {
+                write!(f, ", ")?;
+            }
+            write!(f, "{k}: {v:?}")?;
+        }
+        write!(f, "}} }}")
+    }
 }
 
 impl Bind {
@@ -95,12 +117,34 @@ where
     }
 }
 
-#[derive(Clone, Debug, Eq, PartialEq)]
+#[derive(Clone, Eq, PartialEq)]
 pub struct XCompoundSpec {
     pub(crate) name: Identifier,
     pub(crate) generic_names: Vec<Identifier>,
     pub(crate) fields: Vec<XCompoundFieldSpec>,
     pub(crate) indices: HashMap<Identifier, usize>,
+}
+
+struct IndicesInOrder<'a>(&'a HashMap<Identifier, usize>);
+
+impl Debug for IndicesInOrder<'_> {
+    fn fmt(&self, f: &mut Formatter<'_>) -> std::fmt::Result {
+        let mut entries: Vec<(&Identifier, &usize)> = self.0.iter().collect();
+        entries.sort_by_key(|(_, i)| **i);
+        f.debug_map().entries(entries).finish()
+    }
+}
+
+impl Debug for XCompoundSpec {
+    fn fmt(&self, f: &mut Formatter<'_>) -> std::fmt::Result {
+        // as derived, with the field-index map in the order of the fields (see the note at `Bind`)
+        f.debug_struct("XCompoundSpec")
+            .field("name", &self.name)
+            .field("generic_names", &self.generic_names)
+            .field("fields", &self.fields)
+            .field("indices", &IndicesInOrder(&self.indices))
+            .finish()
+    }
 }
 
 impl XCompoundSpec {
